@@ -563,18 +563,26 @@ def install() -> None:
 
     import optuna.storages.journal._storage as js
 
-    class _FrozenDT(_dt.datetime):
-        @classmethod
-        def now(cls, tz: Any = None) -> "_dt.datetime":
-            return _dt.datetime(2022, 2, 2, 2, 2, 2, 222222)
-
-    class _FakeDatetimeModule:
-        datetime = _FrozenDT
-        timedelta = _dt.timedelta
-        date = _dt.date
-
     js.datetime = _FakeDatetimeModule()  # type: ignore[assignment]
     _installed = True
+
+
+import datetime as _dtmod
+
+
+class _FrozenDT(_dtmod.datetime):
+    """Module-level (instances made by fromisoformat end up in trials, which get pickled into
+    journal snapshots)."""
+
+    @classmethod
+    def now(cls, tz: Any = None) -> "_dtmod.datetime":
+        return _dtmod.datetime(2022, 2, 2, 2, 2, 2, 222222)
+
+
+class _FakeDatetimeModule:
+    datetime = _FrozenDT
+    timedelta = _dtmod.timedelta
+    date = _dtmod.date
 
 
 def uninstall() -> None:
